@@ -233,6 +233,35 @@ def case_linear_strided_int8_operands():
     return None
 
 
+def case_copy_into_module_output():
+    """the quantized output of a module holds the module's `output_scale` buffer itself: writing it in place rescales the module"""
+    import optimum.quanto as q
+    torch.manual_seed(0)
+    m = torch.nn.Sequential(torch.nn.Linear(4, 4))
+    q.quantize(m, weights=q.qint8, activations=q.qint8)
+    x = torch.randn(3, 4)
+    with q.Calibration(streamline=False):
+        m(x)
+    q.freeze(m)
+    y = m(x)
+    before = bits_of(m[0].output_scale)
+    other = q.quantize_activation(torch.randn(3, 4) * 100, q.qint8, torch.tensor(1.0))
+    try:
+        y.copy_(other)
+    except Exception as e:  # noqa
+        return f"copy_ into a module output raises {exc_name(e)}"
+    if bits_of(m[0].output_scale) != before:
+        return "copy_ into the quantized output of a module overwrote the module's output_scale buffer"
+    s = torch.tensor(0.5)
+    a = q.quantize_activation(torch.randn(2, 2), q.qint8, s)
+    b = q.quantize_activation(torch.randn(2, 2), q.qint8, s)
+    bd = bits_of(b.dequantize())
+    a.copy_(other[0:2, 0:2] if False else q.quantize_activation(torch.randn(2, 2) * 50, q.qint8, torch.tensor(1.0)))
+    if bits_of(b.dequantize()) != bd or float(s) != 0.5:
+        return "copy_ into an activation changed another activation quantized with the same scale tensor (and the caller's scale)"
+    return None
+
+
 def case_linear_weight_last_axis():
     import optimum.quanto as q
     torch.manual_seed(0)
@@ -280,6 +309,7 @@ CASES = {
     "linear-1d-input": case_linear_1d_input,
     "linear-noncontiguous-activations": case_linear_noncontiguous_activations,
     "linear-strided-int8-operands": case_linear_strided_int8_operands,
+    "copy_-into-module-output": case_copy_into_module_output,
     "mm-contracted-axis": case_mm_contracted_axis,
     "mm-contracted-axis-right": case_mm_contracted_axis_right,
     "linear-weight-last-axis": case_linear_weight_last_axis,
